@@ -18,12 +18,15 @@ import (
 	"strings"
 	"time"
 
+	eth2apiv1 "github.com/attestantio/go-eth2-client/api/v1"
 	"github.com/attestantio/go-eth2-client/spec/phase0"
 	specqbft "github.com/bloxapp/ssv-spec/qbft"
 	spectypes "github.com/bloxapp/ssv-spec/types"
 	"github.com/herumi/bls-eth-go-binary/bls"
 	pubsub "github.com/libp2p/go-libp2p-pubsub"
 	pspb "github.com/libp2p/go-libp2p-pubsub/pb"
+
+	"github.com/bloxapp/ssv/message/validation"
 
 	"verifharness/lib/ev"
 	"verifharness/lib/qnet"
@@ -158,6 +161,11 @@ func items(c *qnet.Cfg, p *qnet.Pool, w *qnet.World) []item {
 // message's round window instead of the first. Returns the per-item verdicts.
 func validateLog(c *qnet.Cfg, its []item, post, late bool) []verdict {
 	mv, rec := env.NewValidator(post)
+	return validateItems(mv, rec, c, its, post, late, 0)
+}
+
+// validateItems feeds the items of one duty (at slot CurSlot+slotDelta) to the given validator.
+func validateItems(mv validation.MessageValidator, rec *valenv.Recorder, c *qnet.Cfg, its []item, post, late bool, slotDelta int) []verdict {
 	topic := fmt.Sprintf("ssv.v2.%d", subnetOf(c.KeySet.ValidatorPK.Serialize()))
 	out := make([]verdict, 0, len(its))
 	for _, it := range its {
@@ -166,7 +174,7 @@ func validateLog(c *qnet.Cfg, its []item, post, late bool) []verdict {
 		if late {
 			off = b
 		}
-		env.SetClock(0, off)
+		env.SetClock(slotDelta, off)
 		wire := it.payload
 		if post {
 			sig := env.Sign(int(it.from), it.payload)
@@ -298,6 +306,66 @@ func runJob(r *ev.Run, c *qnet.Cfg, k int, faultFree bool) jobOut {
 	return out
 }
 
+// dutyChains: the validator keeps per-signer state across duties (slot, epoch, duties per epoch),
+// so fault-free duties are also validated in sequence by ONE validator: for every role, duties at
+// CurSlot+d for several gap patterns (next epoch less than an epoch later, exactly an epoch
+// later, twice in one epoch), each run to completion on the canonical schedule, every emitted
+// message delivered in order inside its window. Everything must be accepted.
+func dutyChains(r *ev.Run, hist map[string]int) (chains, messages int) {
+	patterns := [][]int{{0, 20, 45}, {0, 32, 64}, {0, 7}, {0, 7, 39}}
+	roles := []spectypes.BeaconRole{spectypes.BNRoleAttester, spectypes.BNRoleProposer, spectypes.BNRoleAggregator, spectypes.BNRoleSyncCommittee, spectypes.BNRoleSyncCommitteeContribution}
+	// the duty store the validator consults knows the proposer duties of the chain's slots
+	for _, pat := range patterns {
+		for _, d := range pat {
+			sl := valenv.CurSlot + phase0.Slot(d)
+			env.Duties.Proposer.Add(env.Beacon.EstimatedEpochAtSlot(sl), sl, valenv.ValidatorIndex, &eth2apiv1.ProposerDuty{}, true)
+		}
+	}
+	for _, role := range roles {
+		for _, pat := range patterns {
+			for _, post := range []bool{false, true} {
+				mv, rec := env.NewValidator(post)
+				chains++
+				var logLines []string
+				for di, d := range pat {
+					c := &qnet.Cfg{N: 4, Height: specqbft.Height(int(valenv.CurSlot) + d), MaxRound: 3, Role: role, Domain: env.NetPre.Domain}
+					c.Init()
+					c.Start = map[spectypes.OperatorID]byte{}
+					for _, h := range c.Honest {
+						c.Start[h] = 'A'
+					}
+					pool := qnet.NewPool()
+					w, _ := qnet.NewWorld(c, pool)
+					for {
+						e, ok := w.Default()
+						if !ok {
+							break
+						}
+						w.Apply(e)
+					}
+					its := items(c, pool, w)
+					vs := validateItems(mv, rec, c, its, post, false, d)
+					messages += len(vs)
+					for i, v := range vs {
+						logLines = append(logLines, fmt.Sprintf("duty %d (slot +%d): %s => %s", di+1, d, its[i].desc, v.reason))
+						hist[fmt.Sprintf("duty chain %s: %s", role.String(), v.reason)]++
+						if v.res != pubsub.ValidationAccept {
+							cls := "not accepted"
+							if v.res == pubsub.ValidationReject {
+								cls = "rejected"
+							}
+							r.Violate(fmt.Sprintf("fault-free duty chain: message of duty %d %s: %s", di+1, cls, strings.TrimPrefix(strings.TrimPrefix(v.reason, "reject: "), "ignore: ")),
+								fmt.Sprintf("%s duties at slots +%v validated by one validator, fault-free, in order, in time: %s of duty %d is %s: %s", role.String(), pat, its[i].desc, di+1, cls, v.reason),
+								"c10-chain", map[string]interface{}{"role": role.String(), "slots": pat, "post_fork": post, "log": append([]string{}, logLines...)}, v.reason, "accept")
+						}
+					}
+				}
+			}
+		}
+	}
+	return
+}
+
 func noDeviation(w *qnet.World) bool {
 	for _, e := range w.Trace {
 		if e.Deviation() {
@@ -413,6 +481,9 @@ func main() {
 	if aborted > 0 {
 		r.CapHit(fmt.Sprintf("deadline: %d of %d configurations not completed", aborted, len(js)))
 	}
+	chains, chainMsgs := dutyChains(r, hist)
+	r.Set("duty_chains", chains)
+	r.Add("messages_validated", chainMsgs)
 	r.Set("traces_validated_against_impl", r.Get("distinct_emission_logs")*4)
 	r.Set("configurations", len(js))
 	r.Set("configurations_completed_by_deviation_bound", byK)
@@ -420,6 +491,7 @@ func main() {
 	r.Set("verdict_histogram", hist)
 	r.Assume("a message is validated inside the round it was sent in (first and last instant of the round window computed from the round timer constants), before and after the signed-envelope fork",
 		"correct operators only (n=4; all honest or one silent), heights = a real slot, values {A,B}; deviation-bounded: DROP/DEFER/TIMEOUT/ISOLATE placements <= k around the FIFO schedule",
+		"duty chains: for each of 5 roles, fault-free duties at CurSlot+{0,20,45}, +{0,32,64}, +{0,7}, +{0,7,39} validated in sequence by one validator (per-signer slot / epoch / duties-per-epoch state carried over), before and after the fork; everything must be accepted",
 		"the validating peer sees every emitted message, in emission order (a peer that misses some messages keeps less per-signer state, which can only remove limit-type verdicts)")
 	r.Finish(aborted == 0)
 }
@@ -430,6 +502,13 @@ func replay(r *ev.Run) {
 		ev.Fatal("%v", err)
 	}
 	t := v.Trace.(map[string]interface{})
+	if v.Harness == "c10-chain" {
+		// the chains are few and deterministic: run them all again
+		fmt.Println("replaying every fault-free duty chain")
+		dutyChains(r, map[string]int{})
+		r.Finish(false)
+		return
+	}
 	c, evs, err := qnet.FromArtefact(t["net"].(map[string]interface{}))
 	if err != nil {
 		ev.Fatal("%v", err)
